@@ -6,7 +6,7 @@ open Lean PonyVerif.Drive PonyVerif.Model.ConnLock
 /-
   request  {"op":"run", "init":{"n":k,"nextCon":c,"poolPid":b,"closed":[..]},
             "sessions":[{"immediate":b,"ddl":b,"reconnect":b,["initGuard":b,"onConnect":n,"disconnect":b (db.disconnect() instead of a session),]"bodyRaises":b,"faults":[global call indices that raise],
-                         "prog":[["query",caught] | ["write",many,caught] | ["modify",[many..],caught] | ["flush",caught]
+                         "prog":[["query",caught] | ["select",caught] | ["write",many,caught] | ["modify",[many..],caught] | ["flush",caught]
                                  | ["commit",caught] | ["rollback",caught] | ["getConnection",caught]]}]}
   reply    {"sessions":[{"outcome":"ok"|exception kind, "events":[...], "state":{...}}]}
 
@@ -51,6 +51,7 @@ def boolsOfJson (j : Json) : Except String (List Bool) := do
 def opOfJson (j : Json) : Except String (Op × Bool) := do
   match j with
   | .arr #[.str "query", .bool c] => pure (.query, c)
+  | .arr #[.str "select", .bool c] => pure (.select, c)
   | .arr #[.str "write", .bool m, .bool c] => pure (.write m, c)
   | .arr #[.str "modify", ws, .bool c] => pure (.modify (← boolsOfJson ws), c)
   | .arr #[.str "flush", .bool c] => pure (.flush, c)
